@@ -9,7 +9,10 @@
 (*   Evaluate     every non-terminal's interpreter is handed exactly its node *)
 (*                                                                           *)
 (* A tree is a sequence of nodes; node i = [k, cap, kids]:                   *)
-(*   k    "term" | "empty" | "nt"                                            *)
+(*   k    "term" | "empty" | "nt" | "blk" (a USER-DEFINED non-terminal that    *)
+(*        is also Walkable: its own Walk visits a header node - id 1000 + n -  *)
+(*        first, then its children, then itself; every other pass treats it   *)
+(*        like an "nt")                                                       *)
 (*   cap  capability of the interpreter bound to an "nt" node:               *)
 (*        "plain" (Eval only) | "checker" | "transformer" | "both"           *)
 (*        | "keep" (a transformer that returns the node it was given)         *)
@@ -25,12 +28,16 @@
 (***************************************************************************)
 EXTENDS Integers, Sequences, FiniteSets, TLC
 
+IsNT(nd) == nd.k \in {"nt", "blk"}
+HdrOf(n) == 1000 + n            \* the header node of the block n (a terminal that only the block's own Walk reaches)
+IsHdr(id) == id > 1000
+
 \* ---- post-order -----------------------------------------------------------------
 RECURSIVE PostOrder(_, _)
 PostOrder(tree, n) ==
   LET RECURSIVE Kids(_)
       Kids(i) == IF i > Len(tree[n].kids) THEN <<>> ELSE PostOrder(tree, tree[n].kids[i]) \o Kids(i + 1)
-  IN Kids(1) \o <<n>>
+  IN (IF tree[n].k = "blk" THEN <<HdrOf(n)>> ELSE <<>>) \o Kids(1) \o <<n>>
 
 \* id 0 stands for the NodeList itself; Walk on a list walks its FIRST element, then visits the list
 FullOrder(tree, list) == IF list THEN PostOrder(tree, 1) \o <<0>> ELSE PostOrder(tree, 1)
@@ -39,20 +46,20 @@ Take(s, k) == SubSeq(s, 1, IF k < Len(s) THEN k ELSE Len(s))
 
 \* Empty nodes are VALUES (a position): two of them at one position are equal, so a visit log cannot tell them apart; logs
 \* name every empty node -1
-EmptyAs(tree, log) == [i \in 1..Len(log) |-> IF log[i] > 0 /\ tree[log[i]].k = "empty" THEN 0 - 1 ELSE log[i]]
+EmptyAs(tree, log) == [i \in 1..Len(log) |-> IF log[i] > 0 /\ ~IsHdr(log[i]) /\ tree[log[i]].k = "empty" THEN 0 - 1 ELSE log[i]]
 
 \* ---- Walk: visits in post-order; the callback returns true at the stopK-th visit (0: never) ---
 WalkLog(tree, list, stopK) == IF stopK = 0 THEN FullOrder(tree, list) ELSE Take(FullOrder(tree, list), stopK)
 WalkResult(tree, list, stopK) == stopK > 0 /\ stopK <= Len(FullOrder(tree, list))
 
 \* ---- StaticCheck ---------------------------------------------------------------------
-HasChecker(nd) == nd.k = "nt" /\ nd.cap \in {"checker", "both"}
+HasChecker(nd) == IsNT(nd) /\ nd.cap \in {"checker", "both"}
 \* "transformer" / "both": the transformer REPLACES the node by a new terminal; "keep": the transformer returns the very node
 \* it was given (an identity / in-place transformer) - the node and everything below it stay as they are
-HasTransformer(nd) == nd.k = "nt" /\ nd.cap \in {"transformer", "both", "keep"}
-Replaced(nd) == nd.k = "nt" /\ nd.cap \in {"transformer", "both"}
+HasTransformer(nd) == IsNT(nd) /\ nd.cap \in {"transformer", "both", "keep"}
+Replaced(nd) == IsNT(nd) /\ nd.cap \in {"transformer", "both"}
 \* the checkers run in post-order; the checker of node failAt returns an error (0: none)
-CheckOrder(tree) == SelectSeq(PostOrder(tree, 1), LAMBDA n : HasChecker(tree[n]))
+CheckOrder(tree) == SelectSeq(PostOrder(tree, 1), LAMBDA n : ~IsHdr(n) /\ HasChecker(tree[n]))
 RECURSIVE UpTo(_, _)
 UpTo(s, x) == IF s = <<>> THEN <<>> ELSE IF Head(s) = x THEN <<x>> ELSE <<Head(s)>> \o UpTo(Tail(s), x)
 CheckLog(tree, failAt) == IF failAt \in {CheckOrder(tree)[i] : i \in 1..Len(CheckOrder(tree))} THEN UpTo(CheckOrder(tree), failAt) ELSE CheckOrder(tree)
@@ -81,7 +88,7 @@ SecondCheck(tree) == [log |-> CheckOrder(tree), failed |-> FALSE,
 RECURSIVE TransformLog(_, _, _)
 TransformLog(tree, failAt, n) ==   \* <<log, failed>>
   LET nd == tree[n] IN
-  IF nd.k # "nt" THEN <<<<>>, FALSE>>
+  IF ~IsNT(nd) THEN <<<<>>, FALSE>>
   ELSE IF HasTransformer(nd) THEN <<<<n>>, n = failAt>>
   ELSE LET RECURSIVE Kids(_, _)
            Kids(i, acc) == IF i > Len(nd.kids) THEN <<acc, FALSE>>
@@ -139,7 +146,7 @@ ParseApiLog(tree, tfail, cfail) ==     \* <<transform log, check log, failed>>
 SecondEval(tree) == LET el == EvalLog(tree, 0, 1) IN [log |-> el[1], failed |-> el[2]]
 
 \* evaluation needs an interpreter for every non-terminal
-Evaluable(tree) == \A n \in 1..Len(tree) : tree[n].k = "nt" => tree[n].cap # "none"
+Evaluable(tree) == \A n \in 1..Len(tree) : IsNT(tree[n]) => tree[n].cap # "none"
 
 \* ---- the Walk machine (explicit stack) ----------------------------------------------------------
 CONSTANTS Trees, Lists, StopKs
@@ -152,7 +159,7 @@ Init == \E t \in Trees, li \in Lists, k \in StopKs :
           /\ todo = IF li THEN <<<<0, 1>>, <<1, 1>>>> ELSE <<<<1, 1>>>>   \* the list (id 0) visits element 1 first
           /\ visited = <<>> /\ result = "run"
 
-KidsOf(n) == IF n = 0 THEN <<>> ELSE tree[n].kids
+KidsOf(n) == IF n = 0 \/ IsHdr(n) THEN <<>> ELSE IF tree[n].k = "blk" THEN <<HdrOf(n)>> \o tree[n].kids ELSE tree[n].kids
 Descend ==
   /\ result = "run" /\ todo # <<>>
   /\ LET top == todo[Len(todo)] IN
@@ -179,5 +186,5 @@ EndState == result # "run" => /\ visited = WalkLog(tree, list, stopK)
                               /\ (result = "stopped") = WalkResult(tree, list, stopK)
 \* children before parents, always
 ChildrenFirst == \A i \in 1..Len(visited) : visited[i] # 0 =>
-                    \A c \in 1..Len(tree[visited[i]].kids) : \E j \in 1..(i - 1) : visited[j] = tree[visited[i]].kids[c]
+                    \A c \in 1..Len(KidsOf(visited[i])) : \E j \in 1..(i - 1) : visited[j] = KidsOf(visited[i])[c]
 =============================================================================
